@@ -11,8 +11,14 @@ import (
 	idset "github.com/intel/goresctrl/pkg/utils"
 )
 
+// verifSubsetIDs: every memory node (a NUMA node that has memory) of a is in b.
+// A memory-less CPU node that a pool lists because of CPU locality is not a
+// memory node in the sense of the property.
 func verifSubsetIDs(a, b idset.IDSet) bool {
 	for _, id := range a.Members() {
+		if verifMemless[id] {
+			continue
+		}
 		if !b.Has(id) {
 			return false
 		}
@@ -33,7 +39,7 @@ func verifMemset(n Node) idset.IDSet {
 // pool's CPUs split disjointly into isolated / reserved / sharable, memory
 // nodes of a child are a subset of its parent's and the root has them all.
 func VerifC16Tree() {
-	machine := []int{0, 1, 2, 3}[verifChoice("machine", verifParam("machines", 4))]
+	machine := []int{0, 1, 2, 3, 4}[verifChoice("machine", verifParam("machines", 5))]
 	sys, _, ncpu := verifMachine(machine)
 	allowed, reserved, isolated := verifSymbolicConstraints(ncpu, verifParam("constraints", 2))
 	w := verifNewPolicy(machine, allowed, reserved, isolated, verifDefaultConfig())
@@ -86,9 +92,26 @@ func VerifC16Tree() {
 	rootMems := verifMemset(p.root)
 	allMems := true
 	for _, id := range sys.NodeIDs() {
-		allMems = allMems && rootMems.Has(id)
+		allMems = allMems && (verifMemless[id] || rootMems.Has(id))
 	}
 	verifAssert("C16.root-has-all-memory-nodes", allMems)
+	if machine == 4 {
+		// memory-less NUMA node #1 gets no pool of its own (its CPUs fold into
+		// socket #0); CPU-less PMEM node #4, whose closest CPU-bearing DRAM node
+		// is #1, belongs to exactly the pools holding node #1's CPUs (socket #0
+		// and the root)
+		verifCover("memoryless-machine")
+		attachOK, noPool := true, true
+		for _, n := range p.pools {
+			if n.Name() == "NUMA node #1" {
+				noPool = false
+			}
+			holds := n.Name() == "root" || n.Name() == "socket #0"
+			attachOK = attachOK && (verifMemset(n).Has(4) == holds)
+		}
+		verifAssert("C16.memoryless-node-has-no-pool", noPool)
+		verifAssert("C16.cpuless-pmem-follows-closest-cpu-bearing-dram", attachOK)
+	}
 	if machine == 3 {
 		// CPU-less PMEM node #2 belongs to exactly the pools that contain its
 		// closest CPU-bearing DRAM node (#0)
